@@ -115,6 +115,7 @@ func runC18(run *Run, replay string) {
 		bases, posN = 400, 60
 	}
 	crossFileFocusCases(run)
+	jsonShiftOracle(run, bases/2)
 	inserts := []string{"\n", "# comment\n", "// c\n", "# コメント é\n", "\n\n# two\n", "// é\n\n",
 		strings.Repeat("# a longer block of comment lines\n", 9), strings.Repeat("\n", 40) + "// é\n"}
 	for bi := 0; bi < bases; bi++ {
@@ -360,4 +361,44 @@ func crossFileSelfAt(pd *PathData, file string, pos hcl.Pos) bool {
 	}
 	walk(pd.Ctx.ReferenceTargets)
 	return found
+}
+
+// jsonShiftOracle: the JSON rendering of a configuration (single-line and pretty), with blank lines inserted in
+// front of the document (JSON has no comments): every path and file query on the translated file gives the
+// translated result of the original.
+func jsonShiftOracle(run *Run, n int) {
+	for i := 0; i < n; i++ {
+		r := rand.New(rand.NewSource(subSeed(run.Res.Seed, 1818000+i)))
+		db := genDual(r)
+		js := db.json(i%2 == 1)
+		for _, ins := range []string{"\n", "\n\n\n", "  \n\t\n"} {
+			mk := func(src string) *Scenario {
+				w := newWorld()
+				pd := w.AddPath("root", tfSchema(), map[string]string{"main.tf.json": src}, nil)
+				w.Collect()
+				return &Scenario{W: w, Main: pd, File: "main.tf.json", Src: []byte(src), Kind: "json"}
+			}
+			s1, s2 := mk(js), mk(ins+js)
+			if s1.Main.Ctx.Files["main.tf.json"] == nil || s2.Main.Ctx.Files["main.tf.json"] == nil {
+				continue
+			}
+			dl, dbytes := strings.Count(ins, "\n"), len(ins)
+			q1 := append(s1.pathQueries(s1.Main), s1.fileQueries(s1.Main, s1.File)...)
+			q2 := append(s2.pathQueries(s2.Main), s2.fileQueries(s2.Main, s2.File)...)
+			for k := range q1 {
+				r1, r2 := safeCall(q1[k].Name, q1[k].Run), safeCall(q2[k].Name, q2[k].Run)
+				run.Res.Evaluations++
+				want := Show(shiftS(outcomeNoErrText(r1), "main.tf.json", 0, dl, dbytes, -1))
+				got := Show(outcomeNoErrText(r2))
+				if len(want) > 30 {
+					run.Distinct(fmt.Sprintf("json|%s|%q|%s", js, ins, q1[k].Name))
+				}
+				run.Count("json_shift_comparisons")
+				if want != got {
+					run.Violate(Violation{Key: "C18/result-changed/json/" + strings.SplitN(q1[k].Name, "(", 2)[0], Rule: "inserting blank or comment lines changes nothing except that positions at or after the insertion point move",
+						Func: q1[k].Name, Detail: firstDiff(want, got), Replay: map[string]interface{}{"seed": run.Res.Seed, "kind": "json-shift", "config": i, "src": js, "inserted": ins, "query": q1[k].Name}})
+				}
+			}
+		}
+	}
 }
